@@ -8,6 +8,8 @@ import (
 	"encoding/base64"
 	"encoding/json"
 	"fmt"
+	"github.com/trustbloc/sidetree-core-go/pkg/commitment"
+	"github.com/trustbloc/sidetree-core-go/pkg/jws"
 
 	"github.com/trustbloc/sidetree-core-go/pkg/api/operation"
 	"github.com/trustbloc/sidetree-core-go/pkg/canonicalizer"
@@ -146,6 +148,14 @@ func mhash(v interface{}, code uint) string {
 	return h
 }
 
+// revealOf is the reveal value of the revealed key as it appears in the signed data (a nonce is part of the JWK).
+func revealOf(s Spec) string {
+	if s.Nonce != "" && s.RevealKey == s.SignedKey {
+		return mhash(jwkWithNonce(s.RevealKey, s.Nonce), s.Code)
+	}
+	return s.RevealKey.Reveal(s.Code)
+}
+
 func jwkWithNonce(k *Key, nonce string) interface{} {
 	if nonce == "" {
 		return k.JWK
@@ -189,7 +199,7 @@ func Build(s Spec) *Op {
 		payload = injectKey(payload, "updateKey", jwkWithNonce(s.SignedKey, s.Nonce))
 		req["type"] = "update"
 		req["didSuffix"] = s.Suffix
-		req["revealValue"] = s.RevealKey.Reveal(s.Code)
+		req["revealValue"] = revealOf(s)
 		req["delta"] = delta
 		req["signedData"] = CompactJWS(header, payload, s.SignWith)
 		op.UniqueSuffix = s.Suffix
@@ -202,7 +212,7 @@ func Build(s Spec) *Op {
 		payload = injectKey(payload, "recoveryKey", jwkWithNonce(s.SignedKey, s.Nonce))
 		req["type"] = "recover"
 		req["didSuffix"] = s.Suffix
-		req["revealValue"] = s.RevealKey.Reveal(s.Code)
+		req["revealValue"] = revealOf(s)
 		req["delta"] = delta
 		req["signedData"] = CompactJWS(header, payload, s.SignWith)
 		op.UniqueSuffix = s.Suffix
@@ -222,7 +232,7 @@ func Build(s Spec) *Op {
 		payload = injectKey(payload, "recoveryKey", jwkWithNonce(s.SignedKey, s.Nonce))
 		req["type"] = "deactivate"
 		req["didSuffix"] = s.Suffix
-		req["revealValue"] = s.RevealKey.Reveal(s.Code)
+		req["revealValue"] = revealOf(s)
 		req["signedData"] = CompactJWS(header, payload, s.SignWith)
 		op.UniqueSuffix = s.Suffix
 		if ss != s.Suffix {
@@ -232,6 +242,13 @@ func Build(s Spec) *Op {
 	}
 	if s.Type != operation.TypeCreate {
 		op.RevealC = s.RevealKey.Commitment(s.Code)
+		if s.Nonce != "" && s.RevealKey == s.SignedKey {
+			if j, ok := jwkWithNonce(s.RevealKey, s.Nonce).(*jws.JWK); ok {
+				c, err := commitment.GetCommitment(j, s.Code)
+				must(err)
+				op.RevealC = c
+			}
+		}
 		if s.RevealKey != s.SignedKey {
 			op.ParseOK = false // reveal value is not the hash of the key inside signed data
 		}
